@@ -24,6 +24,7 @@ RULE = (
     "value at that cursor; near-ties between two grid elements are skipped). Non-trivial = d >= 3 and an index with a carry in some base, or a "
     "split batch sequence; distinct by (kind, d, start, sizes)."
     ' Batch sizes are also numpy integers; every fourth lifecycle case adds six seeds beyond 32 bits for both samplers (equal seed - equal start; not all six may start where their low 32 bits start).'
+    ' Prime tables are requested in structured sequences on one calculator object (growing by one, doubling, a small table then a much larger one); lifecycle objects move on to spaces with more parameters.'
 )
 ASSUMPTIONS = [
     "the first point may be counted as k=0 or k=1: first emitted index accepted in [20, 2^16]; the draw log must show the start requested from exactly [20, 2^16)",
